@@ -177,3 +177,18 @@ prop("C19",
                 "by precondition (they do not occur for parsed trees: needs C01).",
      not_decided=["nesting over whole streams (needs C11's traversal part)", "rebuilt tree equals source tree"],
      explanation="adapter step contract + tables")
+
+
+prop("C18",
+     level="proof",
+     level_text="Proof that the sort key _attr_key is total and is the pair (namespace or '', local name) of strings for every "
+                "attribute with namespace None or a string (so comparisons never mix None and str). The filter's loop body is "
+                "explored symbolically for every token kind and every attribute map with AT MOST THREE attributes (any "
+                "namespaces, names, values, incoming order): same pairs, ordered by the key, other tokens untouched -- a "
+                "bounded stand-in, reported under bounded_standins and not counted as proved.",
+     level_note="Trusted: pyvc, z3. For maps of any size the statement follows from the key contract plus the library contracts of "
+                "sorted() (stable permutation ordered by key) and OrderedDict insertion (distinct keys keep order), argued in "
+                "DESIGN.md, not mechanised. Incoming-order independence additionally needs keys to be distinct under the key "
+                "function: ('' and None namespaces with one local name tie -- recorded in DESIGN.md).",
+     not_decided=["attribute maps with more than three entries (argued from library contracts)"],
+     explanation="key function under contract; loop body bounded")
